@@ -1,0 +1,86 @@
+//! Verification hooks (cargo feature `verif-hooks`, off by default).
+//!
+//! Nothing in this module changes the behaviour of the crate unless a test
+//! harness arms the step budget: `step()` only counts, the recorders only
+//! remember which sites were reached on the current thread.
+#![allow(missing_docs)]
+use std::cell::{Cell, RefCell};
+use std::collections::BTreeMap;
+
+/// Panic message used when the armed step budget is exceeded.
+pub const STEP_LIMIT_MARKER: &str = "verif-hooks: step budget exceeded";
+
+thread_local! {
+    static STEPS: Cell<u64> = const { Cell::new(0) };
+    static LIMIT: Cell<u64> = const { Cell::new(u64::MAX) };
+    static BRANCHES: RefCell<BTreeMap<&'static str, u64>> = const { RefCell::new(BTreeMap::new()) };
+    static LEX: RefCell<BTreeMap<(bool, bool, bool, u8), u64>> = const { RefCell::new(BTreeMap::new()) };
+}
+
+/// Count one logical step of a parser loop; panics once the armed budget is exceeded.
+#[inline]
+pub fn step() {
+    let s = STEPS.with(|c| {
+        let s = c.get().wrapping_add(1);
+        c.set(s);
+        s
+    });
+    if s > LIMIT.with(|l| l.get()) {
+        // disarm so that unwinding code cannot trip the budget again
+        LIMIT.with(|l| l.set(u64::MAX));
+        panic!("{}", STEP_LIMIT_MARKER);
+    }
+}
+
+/// Reset the step counter and set the budget for the current thread.
+pub fn arm(limit: u64) {
+    STEPS.with(|c| c.set(0));
+    LIMIT.with(|l| l.set(limit));
+}
+
+/// Steps counted since the last `arm`.
+pub fn steps() -> u64 {
+    STEPS.with(|c| c.get())
+}
+
+/// Record that a named recovery/decision branch was taken.
+#[inline]
+pub fn branch(name: &'static str) {
+    BRANCHES.with(|b| *b.borrow_mut().entry(name).or_insert(0) += 1);
+}
+
+/// Return and clear the branch counters of the current thread.
+pub fn take_branches() -> BTreeMap<&'static str, u64> {
+    BRANCHES.with(|b| std::mem::take(&mut *b.borrow_mut()))
+}
+
+/// Character classes distinguished by the deb822 lexer.
+pub fn char_class(c: char) -> u8 {
+    match c {
+        ':' => 0,
+        '\n' => 1,
+        '\r' => 2,
+        ' ' => 3,
+        '\t' => 4,
+        '#' => 5,
+        '-' => 6,
+        c if c.is_ascii_graphic() => 7,
+        c if c.is_ascii() => 8,
+        _ => 9,
+    }
+}
+
+/// Record one lexer transition (state x character class).
+#[inline]
+pub fn lex_transition(start_of_line: bool, colon_seen: bool, indented: bool, c: char) {
+    LEX.with(|b| {
+        *b.borrow_mut()
+            .entry((start_of_line, colon_seen, indented, char_class(c)))
+            .or_insert(0) += 1
+    });
+}
+
+/// Return and clear the lexer transition counters of the current thread.
+pub fn take_lex_transitions() -> BTreeMap<(bool, bool, bool, u8), u64> {
+    LEX.with(|b| std::mem::take(&mut *b.borrow_mut()))
+}
